@@ -4,8 +4,8 @@ CONSTANTS
   Style3 = "block"
   Bits = 3
   Fams = {"P", "T"}
-  WithBad = FALSE
-  WithInv = TRUE
+  WithBad = TRUE
+  WithInv = FALSE
   Dyn = FALSE
 VIEW View
 INVARIANT PlacementsExact
